@@ -15,7 +15,7 @@ import pickle
 from fractions import Fraction
 
 from vf import gen, refsem
-from vf.checks.c06 import ac_flatten
+from vf.checks.c06 import denumpy, ac_flatten
 from vf.envs import base_env
 from vf.gen import Ctor
 from vf.localise import localise
@@ -200,6 +200,13 @@ def _close(a, b):
     """Exact for ints / Fractions / bools; float results (they only arise from int / int and
     negative powers) may differ by re-association of an n-ary sum/product: 1e-9 relative."""
     import math
+
+    import numpy as np
+    # a numpy scalar stands for the Python number of its kind (generated code holds literals)
+    if isinstance(a, np.generic):
+        a = a.item()
+    if isinstance(b, np.generic):
+        b = b.item()
     if isinstance(a, (tuple, list)) and type(a) is type(b) and len(a) == len(b):
         return all(_close(x, y) for x, y in zip(a, b))
     if isinstance(a, float) or isinstance(b, float):
@@ -315,7 +322,7 @@ def check_paths(spec, tier, r=None, only=None):
             return back
         if st == "ok":
             bs = to_spec(back)
-            if ac_flatten(bs, NARY_ASSOC) != ac_flatten(spec, NARY_ASSOC):
+            if ac_flatten(bs, NARY_ASSOC) != ac_flatten(denumpy(spec), NARY_ASSOC):
                 for e, ref in zip(envs, refs):
                     if refsem.is_skip(ref) or (ref[0] == "err" and ref[1] == "TypeError"):
                         continue
@@ -356,7 +363,9 @@ class C13(Check):
     rule = ("bounded-exhaustive over the Python-expressible fragment: every constructor shape with "
             "every leaf combination (depth2), every well-typed (parent, position, child) nesting "
             "(nest2), three-level chains (quick: 9 representative shapes; thorough: 22), each through the four translation paths, over the full box "
-            "{-2,1,3,1/2}^vars x {True,False}^boolean vars; compile() additionally with every "
+            "{-2,1,3,1/2}^vars x {True,False}^boolean vars; 7 variable-name alphabets (case, prefixes, "
+            "digits, underscores) under non-symmetric shapes; negative int / float / numpy constants "
+            "in every operand role; compile() additionally with every "
             "ordered selection of listed variables (thorough, <=3 free variables) given as names "
             "and Variables, and a pickle round trip under protocols 2..5. Non-trivial = the "
             "reference yields a value in some environment; distinct = distinct trees.")
@@ -377,6 +386,46 @@ class C13(Check):
     ]
     chunk = 30
 
+    # names whose plain order and case-folded order differ, that differ in case only, that are
+    # prefixes of each other or carry digits / underscores: the free variables a caller does not
+    # list become the remaining parameters "in name order"
+    NAMINGS = (("a", "B"), ("xA", "x_1"), ("x", "X"), ("Z", "a", "_b"), ("x1", "x10", "x2"),
+               ("ab", "a", "abc"), ("B", "a", "C"))
+
+    def gen_names(self):
+        for names in self.NAMINGS:
+            vs = [V(n) for n in names]
+            a, b = vs[0], vs[1]
+            c = vs[2] if len(vs) > 2 else C(7)
+            for t in (("Sum", T(a, ("Product", T(C(-2), b)))), ("Quotient", a, b),
+                      ("Power", a, b), ("If", ("Comparison", a, ("str", "<"), b), a,
+                                        ("Product", T(b, C(3)))),
+                      ("Sum", T(a, ("Product", T(C(2), b)), ("Product", T(C(5), c)))),
+                      ("Call", V("f"), T(a, b, c)), ("Subscript", V("arr"), T(b, a)),
+                      ("FloorDiv", ("Sum", T(a, C(10))), ("Sum", T(b, c)))):
+                yield ("t", t)
+
+    def gen_negconsts(self):
+        x = V("x")
+        for c in (C(-1), C(-2), C(-1.5), C(-0.5), C(-2.0)):
+            for t in (("Power", c, x), ("Power", c, C(2)), ("Power", x, c),
+                      ("Power", ("Power", c, x), C(2)), ("Product", T(c, x)),
+                      ("Quotient", c, x), ("Quotient", x, c), ("Sum", T(x, c)),
+                      ("Sum", T(c, ("Power", c, x))), ("FloorDiv", c, x), ("Remainder", c, x),
+                      ("Call", V("f"), T(("Power", c, x))), ("Subscript", V("arr"), c),
+                      ("Comparison", c, ("str", "<"), ("Power", c, x))):
+                yield ("t", t)
+        # numpy scalars only where their arithmetic is Python's (no powers, no division: numpy
+        # refuses negative integer powers, answers nan instead of complex and inf instead of
+        # ZeroDivisionError -- generated code holds Python literals)
+        for c in (("np", "float64", -1.5), ("np", "int64", -2), ("np", "float32", 0.5),
+                  ("np", "int8", 3), ("np", "bool", True)):
+            for t in (c, ("Product", T(c, x)), ("Sum", T(x, c)), ("Sum", T(c, ("Product", T(c, x)))),
+                      ("Call", V("f"), T(c, x)), ("Subscript", V("arr"), c),
+                      ("Comparison", c, ("str", "<"), x), ("If", ("Comparison", x, ("str", "<"), c),
+                                                            c, x)):
+                yield ("t", t)
+
     def families(self, tier):
         leaves = [V("x"), V("y"), C(2), C(-1), C(2.5), C(True)]
         fams = [
@@ -388,6 +437,8 @@ class C13(Check):
             # differ in their variable: == composites are one memo key by design)
             ("typed-twins", lambda: (("t", s) for s in gen.twin_trees(
                 gen.TYPED_TWINS, V("x"), V("y")) if well_typed(s) and no_cse(s))),
+            ("variable-names", self.gen_names),
+            ("negative-constants", self.gen_negconsts),
             ("hash-twins", lambda: (("t", s) for s in gen.twin_trees()
                                     if well_typed(s) and no_cse(s))),
             ("bushy", lambda: (("t", s) for s in self.gen_bushy(tier) if well_typed(s))),
